@@ -239,13 +239,14 @@ def key(caller, sess):
                     idx(S['S'], bw._system_config), act, wm.GLOBAL_SCHEMA,
                     tuple(sorted(dict(wm.INSTANCE_CONFIG))),
                     None if lps is None else
-                    ('sess' if sess is not None and lps is sess[1]
-                     else 'other'),
+                    ('sess-a' if sess and lps is sess[0] else
+                     'sess-b' if sess and lps is sess[1] else 'other'),
                     None if wm.LAST_STATE is None else
                     (wm.LAST_STATE.tag[-1:], wm.LAST_STATE.root)))
     return (tuple(out), tuple(sorted(caller.items(), key=repr)),
-            None if sess is None else (sess[0], pickle.loads(sess[1]).tag[-1:],
-                                       pickle.loads(sess[1]).root))
+            tuple(None if p is None else
+                  (pickle.loads(p).tag[-1:], pickle.loads(p).root)
+                  for p in (sess or NOSESS)))
 
 
 def belief_vs_reality():
@@ -329,9 +330,10 @@ def apply_event(ev, caller, sess):
             if diff:
                 viol = ('stale-compile', tuple(diff))
         if res is not None and res[1] is not None:
-            sess = (db, res[1])
-    else:   # tx
-        sdb, pstate = sess
+            sess = _with(sess, db, res[1])
+    else:   # tx (one open transaction per database: two sessions can
+        # interleave on the same worker)
+        sdb, pstate = db, sess[_SLOT[db]]
         upk = U[c2[(sdb, 'u')]]
         reuse = bw._last_pickled_state is pstate
         res = None
@@ -350,8 +352,18 @@ def apply_event(ev, caller, sess):
                 # one supplied with the request
                 viol = ('stale-tx-user-schema', (root, pickle.loads(upk)))
         if res is not None:
-            sess = (sdb, res[1])
+            sess = _with(sess, sdb, res[1])
     return c2, sess, viol
+
+
+_SLOT = {'a': 0, 'b': 1}
+NOSESS = (None, None)
+
+
+def _with(sess, db, pstate):
+    s = list(sess or NOSESS)
+    s[_SLOT[db]] = pstate
+    return tuple(s)
 
 
 def explore(ctx, depth, maxfaults, with_lost_ack):
@@ -382,11 +394,13 @@ def explore(ctx, depth, maxfaults, with_lost_ack):
                 evs.append(('compile', db, w, None))
                 if nf < maxfaults:
                     evs += [('compile', db, w, f) for f in faults]
-        if sess is not None:
+        for sdb in ('a', 'b'):
+            if not sess or sess[_SLOT[sdb]] is None:
+                continue
             for w in (0, 1):
-                evs.append(('tx', sess[0], w, None))
+                evs.append(('tx', sdb, w, None))
                 if nf < maxfaults:
-                    evs += [('tx', sess[0], w, f) for f in faults
+                    evs += [('tx', sdb, w, f) for f in faults
                             if not f.startswith('sync')
                             or f in ('sync1', 'sync2')]
         for ev in evs:
